@@ -262,22 +262,29 @@ def random_strings(rng, n, first=None):
 # parallel runner: several processes of the same moddrv; a dying process is a
 # result ("CRASH") for the line that killed it, the rest of the chunk goes on
 
+def _run_raw(exe, lines, timeout):
+    """-> (rc, complete output lines, stderr tail); a partial last line (process died while printing) is dropped"""
+    data = ("\n".join(lines) + "\n").encode()
+    try:
+        p = subprocess.run([exe], input=data, stdout=subprocess.PIPE, stderr=subprocess.PIPE, timeout=timeout, env=SAN_ENV)
+        rc, so, se = p.returncode, p.stdout, p.stderr
+    except subprocess.TimeoutExpired as e:
+        rc, so, se = -999, e.stdout or b"", (e.stderr or b"") + b"\nTIMEOUT after %ds (python-level guard)" % timeout
+    so = so.decode("latin-1")
+    out = so.split("\n")
+    out.pop()                      # "" after the last newline, or the partial line
+    return rc, out, se.decode("latin-1", "replace")[-6000:]
+
+
 def _run_chunk(exe, lines, timeout):
     outs = []
     errs = {}
     pos = 0
     guard = 0
-    while pos < len(lines) and guard < 60:
+    while pos < len(lines) and guard < 400:
         guard += 1
         chunk = lines[pos:]
-        try:
-            rc, out, err = run_lines(exe, chunk, timeout=timeout, env=SAN_ENV)
-        except subprocess.TimeoutExpired as e:
-            got = (e.stdout or b"")
-            if isinstance(got, bytes):
-                got = got.decode("latin-1", "replace")
-            out = got.split("\n")[:-1]
-            rc, err = -999, "TIMEOUT after %ss" % timeout
+        rc, out, err = _run_raw(exe, chunk, timeout)
         if rc == 0 and len(out) == len(chunk):
             outs += out
             pos += len(chunk)
@@ -296,28 +303,36 @@ def _run_chunk(exe, lines, timeout):
         pos = k + 1
     while len(outs) < len(lines):
         outs.append("CRASH")
-        errs.setdefault(len(outs) - 1, ("CRASH", -1, "too many crashes in one chunk; not run"))
+        errs.setdefault(len(outs) - 1, ("CRASH", -1, "too many process deaths in one chunk; not run"))
     return outs, errs
+
+
+def run_many(jobs, nproc=None, timeout=150, per_chunk=80):
+    """jobs = [(exe, lines)]; all chunks of all jobs share one pool of processes.
+    Returns [(outputs, {index: (kind, rc, stderr tail)})] in the order of jobs"""
+    nproc = nproc or NCPU
+    tasks = []
+    for j, (exe, lines) in enumerate(jobs):
+        n = len(lines)
+        if n == 0:
+            continue
+        size = max(per_chunk, (n + nproc - 1) // nproc)
+        for i in range(0, n, size):
+            tasks.append((j, i, exe, lines[i:i + size]))
+    res = [([None] * len(lines), {}) for (exe, lines) in jobs]
+    with ThreadPoolExecutor(max_workers=nproc) as ex:
+        futs = [(j, i, ex.submit(_run_chunk, exe, ch, timeout)) for (j, i, exe, ch) in tasks]
+        for j, i, f in futs:
+            o, e = f.result()
+            res[j][0][i:i + len(o)] = o
+            for k, v in e.items():
+                res[j][1][i + k] = v
+    return res
 
 
 def run_par(exe, lines, nproc=None, timeout=150):
     """returns (outputs, {index: (kind, rc, stderr tail)})"""
-    if not lines:
-        return [], {}
-    nproc = nproc or NCPU
-    nproc = max(1, min(nproc, (len(lines) + 199) // 200))
-    size = (len(lines) + nproc - 1) // nproc
-    chunks = [(i, lines[i:i + size]) for i in range(0, len(lines), size)]
-    outs = [None] * len(lines)
-    errs = {}
-    with ThreadPoolExecutor(max_workers=nproc) as ex:
-        futs = [(i, ex.submit(_run_chunk, exe, ch, timeout)) for i, ch in chunks]
-        for i, f in futs:
-            o, e = f.result()
-            outs[i:i + len(o)] = o
-            for k, v in e.items():
-                errs[i + k] = v
-    return outs, errs
+    return run_many([(exe, lines)], nproc, timeout)[0]
 
 
 def model_par(model, lines, nproc=None, timeout=900):
